@@ -163,11 +163,16 @@ def run_arith(sc, V, stats):
                     fired = lc.op_interrupted_advance(h, op[1], op[2])
                 except (lc.StepExhausted, rctx.Runaway):
                     break
-                stats["probe_operation_interrupted_by_the_posterior"] += int(fired)
+                stats["probe_operation_interrupted_by_the_posterior"] += int(bool(fired))
                 n1 = h.length()
+                swallowed = fired == "swallowed"
+                if swallowed:
+                    fired = False  # advance() returned normally: then it must have added exactly m
                 if not (n0 <= n1 <= n0 + op[1] * per) or (n1 - n0) % per or (not fired and n1 != n0 + op[1] * per):
                     _viol(V, "advance.exact", "%s: advance(%d) %s grew chain_length from %d to %d"
-                          % (h.kind, op[1], "interrupted by the posterior" if fired else "(not interrupted)", n0, n1))
+                          % (h.kind, op[1], "interrupted by the posterior" if fired else
+                             ("returned normally although the posterior raised StopIteration inside it and" if swallowed else "(not interrupted)"),
+                             n0, n1))
                 _lengths_consistent(V, h, "after an advance interrupted by the posterior")
                 continue
             try:
